@@ -65,8 +65,8 @@ NESTED_SITES = {
     "filtered-def": ('<%def name="f()" filter="trim">F[CALL]</%def>s(${f()})e|${g()}', "s(F[W])e|G"),
     "capture": ('<%def name="f()">F[CALL]</%def>s(${capture(f)})e|${g()}', "s(F[W])e|G"),
     "call-body-of-buffered-def": ('<%def name="w()" buffered="True">w{${caller.body()}}</%def>s(<%call expr="w()">CALL</%call>)e|${g()}', "s(w{W})e|G"),
-    # (inside a <%block> the nested template's own error_handler is not consulted on the unchanged tree - which handler
-    # governs a render_context() into a borrowed Context is not fixed by the statement: no block / nested-def site)
+    "block-filter": ('s(<%block filter="trim">B[CALL]</%block>)e|${g()}', "s(B[W])e|G"),
+    "nested-twice": ('<%def name="f()" buffered="True">F[<%def name="i()" buffered="True">I[CALL]</%def>${i()}]</%def>s(${f()})e|${g()}', "s(F[I[W]])e|G"),
 }
 NESTED_CALLS = {"render_context": "<% widget.render_context(context) %>", "render_context-kw": "<% widget.render_context(context, q=1) %>"}
 
@@ -80,7 +80,7 @@ def nested_cases():
 
 def run_nested(c):
     """a second template rendered into the SAME context (render_context) from inside a capturing construct; its failure
-    is handled by its own error_handler (returns True): what it wrote stays where it was written, the enclosing
+    is handled by the error_handler of the template the Context belongs to (returns True): what it wrote stays where it was written, the enclosing
     constructs close normally, later output follows"""
     from mako.runtime import Context
     from mako.template import Template
@@ -96,8 +96,9 @@ def run_nested(c):
     def boom():
         raise Boom("planted")
 
-    widget = Template("W${boom()}X" if c["form"] == "fails-handled" else "W", error_handler=eh)
-    main = Template(tmpl.replace("CALL", NESTED_CALLS[c["place"]]) + '<%def name="g()">G</%def>')
+    # (the template the Context was made for - the outer one - is the one whose error handling options govern)
+    widget = Template("W${boom()}X" if c["form"] == "fails-handled" else "W")
+    main = Template(tmpl.replace("CALL", NESTED_CALLS[c["place"]]) + '<%def name="g()">G</%def>', error_handler=eh)
     what = "nested-render:%s" % c["flavour"]
     for attempt in (1, 2):
         buf = FastEncodingBuffer()
@@ -107,9 +108,9 @@ def run_nested(c):
             main.render_context(ctx)
             out = "".join(buf.getvalue().split("\n"))
         except Exception as e:  # noqa
-            return ("prologue:%s:exception escapes (%s)" % (what, type(e).__name__), "a failure handled by the nested template's error_handler leaves the enclosing render consistent", exp, "%s: %s" % (type(e).__name__, str(e)[:100]))
+            return ("prologue:%s:exception escapes (%s)" % (what, type(e).__name__), "a failure of the nested render handled by the error_handler leaves the enclosing render consistent", exp, "%s: %s" % (type(e).__name__, str(e)[:100]))
         if c["form"] == "fails-handled" and len(handled) != 1:
-            return ("prologue:%s:handler not called once" % what, "the nested template's error_handler is called once", 1, len(handled))
+            return ("prologue:%s:handler not called once" % what, "the error_handler is called once", 1, len(handled))
         if out != exp:
             return ("prologue:%s:output differs" % what, "text goes to the buffer that was current where it was written; enclosing constructs close normally", exp, out)
         if len(ctx._buffer_stack) != 1 or ctx._buffer_stack[0] is not buf:
